@@ -485,10 +485,22 @@ Lemma WI_propagate_task ne X R fuel : forall s t,
 Proof.
   induction fuel as [|fuel IH]; intros s t I W; cbn [propagate_task].
   - destruct (negb (is_prio_task s t)); auto.
-    destruct (task_is_runnable s t); [apply (WI_wk _ _ _ s); [apply wk_core; reflexivity|exact W]|].
+    set (s0 := if task_is_runnable s t then task_reschedule s t else s).
+    assert (H0 : Inv s0 /\ WIx ne X R s0).
+    { unfold s0. destruct (task_is_runnable s t); [|auto]. split.
+      - apply (ls_inv (proj1 (pstep_core_eq s (task_reschedule s t) I eq_refl eq_refl eq_refl eq_refl
+                                            eq_refl eq_refl))).
+      - apply (WI_wk _ _ _ s); [apply wk_core; reflexivity|exact W]. }
+    clearbody s0. destruct H0 as [I0 W0]. clear I W s. rename s0 into s, I0 into I, W0 into W.
     destruct (twaiting (gett s t)); auto.
   - destruct (negb (is_prio_task s t)); auto.
-    destruct (task_is_runnable s t); [apply (WI_wk _ _ _ s); [apply wk_core; reflexivity|exact W]|].
+    set (s0 := if task_is_runnable s t then task_reschedule s t else s).
+    assert (H0 : Inv s0 /\ WIx ne X R s0).
+    { unfold s0. destruct (task_is_runnable s t); [|auto]. split.
+      - apply (ls_inv (proj1 (pstep_core_eq s (task_reschedule s t) I eq_refl eq_refl eq_refl eq_refl
+                                            eq_refl eq_refl))).
+      - apply (WI_wk _ _ _ s); [apply wk_core; reflexivity|exact W]. }
+    clearbody s0. destruct H0 as [I0 W0]. clear I W s. rename s0 into s, I0 into I, W0 into W.
     destruct (twaiting (gett s t)) as [l|]; auto.
     set (s1 := match lowner (getl s l) with Some o => propagate_task fuel s o | None => s end).
     assert (H1 : Inv s1 /\ WIx ne X R s1).
